@@ -28,6 +28,20 @@ def stencil_rows(ctx, den=8, maxnz=14):
     return lag, fd
 
 
+def lagrange_weights(alpha):
+    """Closed form of Stencils.LagrangeW for an arbitrary rational alpha (nodes -2..3); cross-checked against every row TLC
+    printed (eighths) at the start of each run, so that it is the same function as the specification's."""
+    nodes = range(-2, 4)
+    out = []
+    for k in nodes:
+        w = Fr(1)
+        for j in nodes:
+            if j != k:
+                w *= (alpha - j) / Fr(k - j)
+        out.append(w)
+    return out
+
+
 def run(ctx):
     from pygyro.advection.advection import FluxSurfaceAdvection
     from pygyro.model.layout import Layout
@@ -38,6 +52,9 @@ def run(ctx):
                 "for k/8 in -5.5..5.5 incl. whole cells) x all (r, v) table rows; lines from integer coefficient vectors; distinct = "
                 "(space, nz, iota, r index, v index, dt); all non-trivial")
     lag, _ = stencil_rows(ctx)
+    for a_, w_ in lag.items():
+        if lagrange_weights(a_) != w_:
+            raise Machinery("harness Lagrange weights differ from the TLC table at alpha=%s" % a_)
     spaces = fa.theta_spaces(ctx)
     ctx.exhaustive = True
     rng.shuffle(spaces)
@@ -46,17 +63,25 @@ def run(ctx):
     worst = 0.0
     for sp in spaces:
         for nz in ((7, 9) if quick else (7, 8, 9, 12)):
-            for iota in (0.0, 1.0):
+            for iota in (0.0, 1.0, "r-dependent"):
                 L = fa.Lines(sp, nz, rng)
                 R0 = 1.0
                 rs = np.array([0.75, 4.0 / 3.0, 5.0 / 12.0]) if iota else np.array([0.5, 2.0, 3.0])
-                bz = 1.0 / np.sqrt(1.0 + (rs * iota / R0) ** 2)
+                if iota == "r-dependent":
+                    # the operator takes iota as a function of r (its tables are per radius): twist and b_z differ per surface
+                    iof = lambda r: 0.4 + 0.5 * np.asarray(r, dtype=float)
+                    iov = iof(rs)
+                else:
+                    iov = np.full(len(rs), float(iota))
+                bz = 1.0 / np.sqrt(1.0 + (rs * iov / R0) ** 2)
                 # velocities such that v*bz*dt is (nearly) a multiple of 1/8 for the first radius, generic for the others
                 ks = rng.sample(range(-44, 45), 5) + [0, 8, -16, 24]
                 dt = rng.choice([1.0, -1.0, 0.5, 2.0])
                 vs = np.array(sorted(set(k / 8.0 / bz[0] / dt for k in ks)))
                 eta = [rs, L.theta, np.arange(nz, dtype=float) * 1.0, vs]
-                c = fa.consts(iota, R0)
+                c = fa.consts(0.0 if iota == "r-dependent" else iota, R0)
+                if iota == "r-dependent":
+                    c.iota = iof
                 lay = Layout("flux_surface", [1], [0, 3, 1, 2], eta, [0])
                 try:
                     op = FluxSurfaceAdvection(eta, [L.basis, None], lay, dt, c)
@@ -64,17 +89,20 @@ def run(ctx):
                     ctx.violation({"kind": "constructor-raises", "error": type(ex).__name__}, "FluxSurfaceAdvection raised %s: %s" % (type(ex).__name__, ex),
                                   {"space": sp.key(), "nz": nz, "iota": iota})
                     continue
-                tau = 1.0 * iota / R0
                 for ri in range(len(rs)):
+                    tau = 1.0 * float(iov[ri]) / R0
                     for vi in range(len(vs)):
                         d = -vs[vi] * bz[ri] * dt / 1.0
                         d0 = Fr(round(d * 8), 8)
                         if abs(d - float(d0)) > 1e-9:
-                            # generic displacement: nearest table row only if close enough, otherwise skip (covered by ri = 0)
-                            continue
+                            # generic displacement: exact weights of the float displacement itself (away from whole cells,
+                            # where the choice of the stencil would be within rounding)
+                            d0 = Fr(float(d))
+                            if abs(d - round(d)) < 1e-6:
+                                continue
                         s0 = math.floor(d0)
                         alpha = d0 - s0
-                        w = lag[alpha]
+                        w = lag[alpha] if alpha in lag else lagrange_weights(alpha)
                         f = L.f.copy()
                         try:
                             op.step(f, vi, ri)
@@ -96,7 +124,7 @@ def run(ctx):
                         ncase += 1
                         ctx.count((sp.key(), nz, iota, ri, vi, dt))
                         if not err <= 1e-9 * 10:
-                            ctx.violation({"kind": "value", "path": sp.kind, "iota_zero": iota == 0.0, "whole_cells": alpha == 0, "multi_cell": abs(s0) > 1,
+                            ctx.violation({"kind": "value", "path": sp.kind, "iota_zero": iota == 0.0, "iota_r_dependent": iota == "r-dependent", "whole_cells": alpha == 0, "multi_cell": abs(s0) > 1,
                                            "first_radius": ri == 0},
                                           "FluxSurfaceAdvection.step(f, vIdx=%d, rIdx=%d) deviates by %g from the field-aligned Lagrange/spline formula "
                                           "(d=%s cells, twist %g rad/cell, b_z=%g, nz=%d, theta space %s)" % (vi, ri, err, d0, tau, bz[ri], nz, sp.key()),
